@@ -9,7 +9,7 @@ use blots_core::units::{self, ConversionType, Unit};
 use proptest::prelude::*;
 use serde::{Deserialize, Serialize};
 
-pub const RULE: &str = "exhaustive over get_all_units(): every identifier (exact resolution), upper/lower/title/swapped case variants of every identifier (resolution iff unambiguous, computed independently over the table), every identifier against the unit's first identifier (identical behaviour, bitwise), every ordered same-category pair and every same-category triple x a magnitude set (identity, there-and-back, composition), every cross-category ordered pair (must fail), SI-prefixed names vs their base (power-of-ten ratio), random non-identifiers (must fail), and a sample through the `convert` built-in; thorough adds all magnitudes 0, +-1e-12..+-1e12, 7.25 and random values. Non-trivial = a law instance involving two distinct units (or an identifier that is not the unit's first); distinct by (law, identifiers, magnitude).";
+pub const RULE: &str = "exhaustive over get_all_units(): every identifier (exact resolution), upper/lower/title/swapped case variants of every identifier (resolution iff unambiguous, computed independently over the table), every identifier against the unit's first identifier (identical behaviour, bitwise), every ordered pair of identifiers of the whole table (same category: bitwise the result of the units' first identifiers; different categories: must fail), every ordered same-category pair and every same-category triple x a magnitude set (identity, there-and-back, composition), every cross-category ordered pair (must fail), SI-prefixed names vs their base (power-of-ten ratio), random non-identifiers (must fail), and a sample through the `convert` built-in; thorough adds all magnitudes 0, +-1e-12..+-1e12, 7.25 and random values. Non-trivial = a law instance involving two distinct units (or an identifier that is not the unit's first); distinct by (law, identifiers, magnitude).";
 pub const ASSUMPTIONS: &[&str] = &[
     "multi-step paths are held to a rounding bound: relative 16*eps for multiplicative (linear / reciprocal) units, absolute 32*eps*max(|values involved|, 500) for the affine temperature scales",
     "internally consistent laws cannot detect a mistyped coefficient; only the SI-prefix ratio law compares coefficients with an external table (harness prefix list)",
@@ -27,6 +27,8 @@ pub enum Case {
     Unknown { text: String },
     Prefix { prefixed: String, base: String, power: i32 },
     Builtin { a: String, b: String, v: F },
+    /// every ordered pair of identifiers: (ia, ib) must behave like the first identifiers (fa, fb) of their units
+    IdentPair { ia: String, ib: String, fa: String, fb: String, same_category: bool },
 }
 
 pub struct Units;
@@ -189,6 +191,22 @@ impl Check for Units {
                     fail!(format!("same-category-rejected:{}", first), "convert({:e}, {:?}, {:?}) failed: {:?} {:?}", v.0, first, partner, a1, b1);
                 }
                 Ok(())
+            }
+            Case::IdentPair { ia, ib, fa, fb, same_category } => {
+                ctx.label(if *same_category { "identifier-pair:same-category" } else { "identifier-pair:cross-category" });
+                ctx.nontrivial(hash_str(&format!("ip|{}|{}", ia, ib)));
+                let got = conv(7.25, ia, ib);
+                if !*same_category {
+                    if let Ok(w) = got {
+                        fail!(format!("cross-category-converts:{}->{}", ia, ib), "convert(7.25, {:?}, {:?}) = {:e} although {:?} and {:?} are units of different categories", ia, ib, w, fa, fb);
+                    }
+                    return Ok(());
+                }
+                let want = conv(7.25, fa, fb);
+                match (&got, &want) {
+                    (Ok(p), Ok(q)) if p.to_bits() == q.to_bits() => Ok(()),
+                    _ => fail!(format!("identifier-pair-differs:{}->{}", ia, ib), "convert(7.25, {:?}, {:?}) = {:?} but with the units' first identifiers convert(7.25, {:?}, {:?}) = {:?}", ia, ib, got, fa, fb, want),
+                }
             }
             Case::Pair { a, b, v } => {
                 ctx.label(if a == b { "self-conversion" } else { "there-and-back" });
@@ -374,6 +392,15 @@ pub fn run(ctx: &mut Ctx) {
                 // a short alias too (e.g. "m" vs "min")
                 let (sa, sb) = (a.identifiers[a.identifiers.len() - 1], b.identifiers[b.identifiers.len() - 1]);
                 cases.push(Case::Cross { a: sa.to_string(), b: sb.to_string() });
+            }
+        }
+    }
+    for a in &all {
+        for b in &all {
+            for ia in a.identifiers {
+                for ib in b.identifiers {
+                    cases.push(Case::IdentPair { ia: ia.to_string(), ib: ib.to_string(), fa: a.identifiers[0].to_string(), fb: b.identifiers[0].to_string(), same_category: a.category == b.category });
+                }
             }
         }
     }
